@@ -967,19 +967,19 @@ class XMLSchemaBase(XsdValidator, ElementPathMixin[Union[SchemaType, XsdElement]
             return self.maps.elements.get(tag)
         elif path[-1] == '*':
             path = path[:-1] + tag
-            xsd_element = self.find(path, namespaces)
-            if not isinstance(xsd_element, XsdElement):
-                xsd_element = self._find_from_parent(path, namespaces)
+            xsd_element = self._find_from_parent(path, namespaces)
+            if xsd_element is None:
+                xsd_element = self.find(path, namespaces)
 
             if isinstance(xsd_element, XsdElement) and xsd_element.name == tag:
                 return xsd_element
             else:
                 return self.maps.elements.get(tag)  # a global element or a substitute
         else:
-            xsd_element = self.find(path, namespaces)
-            if not isinstance(xsd_element, XsdElement):
-                xsd_element = self._find_from_parent(path, namespaces)
-                if xsd_element is None:
+            xsd_element = self._find_from_parent(path, namespaces)
+            if xsd_element is None:
+                xsd_element = self.find(path, namespaces)
+                if not isinstance(xsd_element, XsdElement):
                     return None
 
             if xsd_element.name != tag:
@@ -991,10 +991,14 @@ class XMLSchemaBase(XsdValidator, ElementPathMixin[Union[SchemaType, XsdElement]
             -> Optional[XsdElement]:
         """
         Resolves the last step of a path from the declaration of the parent element. Used when
-        the path traverses a member of a substitution group, that is matched by the declaration
-        of the head but has its own type. Returns `None` if the path doesn't end with two name
+        the schema has substitution groups: a member is matched by the declaration of its head
+        but has its own type, so the children have to be searched in the declaration of the member.
+        Returns `None` if there are no substitution groups, if the path doesn't end with two name
         steps or if the parent declaration can't be found.
         """
+        if not self.maps.substitution_groups:
+            return None
+
         match = PARENT_CHILD_STEPS_PATTERN.fullmatch(path)
         if match is None or '.' in match.group(2, 3) or '..' in match.group(2, 3):
             return None
